@@ -27,7 +27,12 @@ theorem test_acceptance_tie (thr n o kt : ℝ) : Gen.test_acceptance thr n o kt 
 theorem accept_score_tie (new : Option ℝ) (old kt thr : ℝ) :
     Gen.accept_score new old kt thr = acceptScore new old kt thr := by
   unfold Gen.accept_score acceptScore
-  simp only [test_acceptance_tie]
-  tie_close
+  -- either the source still calls `test_acceptance` (rewrite with its tie), or the call was inlined by a
+  -- refactoring: then everything is unfolded on both sides and compared branch by branch
+  first
+  | (simp only [test_acceptance_tie]; tie_close)
+  | (simp only [Gen.test_acceptance, Gen.energy_surface, testAcceptance, energySurface]; tie_close)
+  | (simp only [Gen.test_acceptance, Gen.energy_surface, testAcceptance, energySurface]
+     cases new <;> simp only [] <;> (try rfl) <;> (repeat' split) <;> first | rfl | (exfalso; simp_all; done) | (simp_all; done) | (exfalso; linarith))
 
 end PV.Proofs.Tie
